@@ -239,7 +239,7 @@ impl Prop for C12 {
             Box::new(SeqDomain {
                 name: "seq",
                 quick: 500,
-                thorough: 40_000,
+                thorough: 20_000,
                 profile: growth_profile,
                 cfg: || SeqCfg {
                     sweep: true,
@@ -282,7 +282,7 @@ impl Prop for C12 {
             Box::new(CrashDomain {
                 name: "crash",
                 quick: 120,
-                thorough: 8_000,
+                thorough: 4_000,
                 profile: || Profile {
                     max_ops: 16,
                     sched_pct: 10,
